@@ -1133,3 +1133,51 @@ def c20(ck):
                 panics += 1
     ck.sample(head_lines(files[0], 3))
     ck.sample([json.loads(l) for l in open(files[0]) if '"k":"dis"' in l][:1])
+
+
+# ------------------------------------------------------------------- C15
+@prop("C15")
+def c15(ck):
+    import gbprog
+    thorough = ck.tier == "thorough"
+    rng = random.Random(vlib.seed() + 15)
+    ck.rule = ("scenes (VRAM, OAM, LCDC bits 1-6, SCX/SCY/WX/WY, palettes) held constant over a frame: uniformly random ones and "
+               "directed families (window left of / inside / right of the screen, WY at 0/143/144, more than ten objects on a "
+               "line with equal-X ties and X = 0 / >= 168, 8x16 objects with flips partly off-screen, BG-over-OBJ patterns, "
+               "scroll wrap-around); rendered by the real PPU through run_clock_cycles in random batches, the frame presented "
+               "at VBlank compared pixel by pixel by TLC with Ppu!Frame; a scene is a case (23040 pixels each)")
+    n = 600 if thorough else 24
+    scs = gbprog.scenes(n, rng)
+    shards = 12 if thorough else 4
+    parts = [scs[i::shards] for i in range(shards)]
+    files = []
+    for i, part in enumerate(parts):
+        sp = os.path.join(rundir(), "scenes_%d.ndjson" % i)
+        fp = os.path.join(rundir(), "frames_%d.ndjson" % i)
+        vlib.write_ndjson(sp, part)
+        recs = gbv(["ppu", "--scenes", sp, "--out", fp])
+        for r in recs:
+            if r.get("kind") == "crash":
+                ck.mismatch(r, "ppu-crash")
+        files.append(fp)
+    jobs = [dict(module="Val_Ppu", env={"TRACE": f}, check=False, timeout=3000, xmx="3g") for f in files]
+    jobs.append(dict(module="MC_Ppu", cfg="MC_Ppu_deep" if thorough else "MC_Ppu", workers=4, timeout=3000))
+    rs = vlib.tlc_parallel(jobs, maxpar=8)
+    ck.add_tlc("MC_Ppu", rs.pop())
+    for f, r in zip(files, rs):
+        ck.add_tlc("Val_Ppu", r, mc=False)
+        if r.printed("BATCH_OK"):
+            continue
+        rej = r.printed("BATCH_REJECTED")
+        if not rej:
+            raise ToolError("Val_Ppu gave no verdict:\n" + "\n".join(r.text.splitlines()[-20:]))
+        import shutil
+        keep = os.path.join(vlib.REPLAY, ck.prop); os.makedirs(keep, exist_ok=True)
+        kept = os.path.join(keep, os.path.basename(f)); shutil.copy(f, kept)
+        ck.mismatch({"kind": "frame-differs", "line": rej[0][:1500], "frames": kept}, "frame")
+    ck.count(n)
+    ck.nontrivial_count += n
+    ck.traces += n
+    ck.extra["pixels_compared"] = n * 23040
+    s0 = scs[1]
+    ck.sample({k: (s0[k] if k not in ("vram", "oam") else s0[k][:16] + ["..."]) for k in s0})
